@@ -2136,14 +2136,21 @@ class PyCdlib:
                 # This boot file is 'hidden': there is no Directory Record
                 # that says how long it is, and the sector count of the El
                 # Torito Entry is only the amount of data that is loaded at
-                # boot time, which may be less than the file.  If the file
-                # carries a valid Boot Info Table, that has the real length.
+                # boot time, which may be less than the file.  With floppy or
+                # hard disk emulation the sector count is always 1, and the
+                # real length is the size of the emulated disk.  Otherwise, if
+                # the file carries a valid Boot Info Table, that has the real
+                # length.
                 orig = self._cdfp.tell()
                 self._seek_to_extent(entry_extent)
-                header = self._cdfp.read(8 + eltorito.EltoritoBootInfoTable.header_length())
+                disk_mbr = self._cdfp.read(512)
+                header = disk_mbr[:8 + eltorito.EltoritoBootInfoTable.header_length()]
                 bi_table = eltorito.EltoritoBootInfoTable()
                 room = (self.pvd.space_size - entry_extent) * self.logical_block_size
-                if len(header) == 24 and bi_table.parse(self.pvd, header[8:], ino) and ino.data_length < bi_table.orig_len <= room:
+                emulated_len = entry.emulated_length(disk_mbr)
+                if ino.data_length < emulated_len <= room:
+                    ino.data_length = emulated_len
+                elif len(header) == 24 and bi_table.parse(self.pvd, header[8:], ino) and ino.data_length < bi_table.orig_len <= room:
                     self._seek_to_extent(entry_extent)
                     if self._calculate_eltorito_boot_info_table_csum(self._cdfp, bi_table.orig_len) == bi_table.csum:
                         ino.data_length = bi_table.orig_len
